@@ -57,9 +57,10 @@ func c16GenK(t *rapid.T) c16KCase {
 	return c16KCase{K: k, Cls: cls}
 }
 
-// c16Watchdog bounds one reduction.  FindShortVector takes microseconds; a run
-// that has not returned after this long is reported as non-termination.
-const c16Watchdog = 60 * time.Second
+// c16Budget bounds one reduction.  FindShortVector takes microseconds; a run
+// that has not returned after the process burned this much CPU time waiting
+// for it is reported as non-termination (CPU time, so load cannot trip it).
+const c16Budget = 30 * time.Second
 
 func c16CheckK(c c16KCase) h.Result {
 	r := h.NewR().Class(c.Cls)
@@ -76,19 +77,9 @@ func c16CheckK(c c16KCase) h.Result {
 		r.Class("unreduced")
 	}
 
-	type out struct{ d0, d1 Int128 }
-	ch := make(chan out, 1)
-	go func() {
-		a, b := FindShortVector(k)
-		ch <- out{a, b}
-	}()
-	var o out
-	wd := time.NewTimer(c16Watchdog)
-	select {
-	case o = <-ch:
-		wd.Stop()
-	case <-wd.C:
-		return r.NT(true).Fail("lattice.FindShortVector:does-not-terminate", "k=%x (no result after %v)", []byte(c.K), c16Watchdog).Result()
+	var o struct{ d0, d1 Int128 }
+	if !h.Returns(c16Budget, func() { o.d0, o.d1 = FindShortVector(k) }) {
+		return r.NT(true).Fail("lattice.FindShortVector:does-not-terminate", "k=%x (no result after %v of CPU time)", []byte(c.K), c16Budget).Result()
 	}
 	d0, d1 := c16I128(o.d0), c16I128(o.d1)
 	if d0.Sign() < 0 {
